@@ -476,10 +476,11 @@ func init() {
 		Build: func(p *Program, tier string) ([]*Unit, []UnitError) {
 			us, es := restoreUnitsOf(p, tier, true)
 			us2, es2 := buildDecorateNode(p, tier)
-			return append(us, us2...), append(es, es2...)
+			us3, es3 := buildPrintOutput(p, tier)
+			return append(append(us, us2...), us3...), append(append(es, es2...), es3...)
 		},
 		Select: func(n string) bool {
-			return reFields.MatchString(n) || strings.HasSuffix(n, "#tape:children_once") || reCommentsOnce.MatchString(n)
+			return reFields.MatchString(n) || strings.HasSuffix(n, "#tape:children_once") || reCommentsOnce.MatchString(n) || strings.Contains(n, "#output:")
 		},
 		Siblings: "C11 (maps), C12 (position space), C04 (tape)",
 		Assumptions: []string{
